@@ -226,6 +226,22 @@ macro_rules! field_linear_exact {
 field_linear_exact!(fq_add_exact, fq_sub_exact, fq_neg_exact, fq_double_exact, IFq, FQ);
 field_linear_exact!(fr_add_exact, fr_sub_exact, fr_neg_exact, fr_double_exact, IFr, FR);
 
+// Fp::new accepts exactly the integers below the modulus (the Montgomery conversion itself is the E1 obligation; stubbed here)
+#[kani::proof]
+#[kani::unwind(7)]
+#[kani::stub(crate::u256::U256::mul, stub_u256_mul)]
+fn fq_new_range() {
+    let a: [u64; 4] = kani::any();
+    assert!(IFq::new(U256::from(a)).is_some() == wlt4(&a, &FQ));
+}
+#[kani::proof]
+#[kani::unwind(7)]
+#[kani::stub(crate::u256::U256::mul, stub_u256_mul)]
+fn fr_new_range() {
+    let a: [u64; 4] = kani::any();
+    assert!(IFr::new(U256::from(a)).is_some() == wlt4(&a, &FR));
+}
+
 #[kani::proof]
 #[kani::unwind(7)]
 fn fq_div2_exact() {
